@@ -65,10 +65,46 @@ class Ctx:
     def undecided(self, rule, construct, statement, node=None, reason='', **kw):
         return self.ob(rule, construct, statement, UNDECIDED, node, reason, **kw)
 
-    def decide(self, rule, construct, statement, ok, node=None, reason='', **kw):
-        """ok: True -> met, False -> violated, None -> undecided."""
-        v = UNDECIDED if ok is None else (MET if bool(ok) else VIOLATED)
+    def decide(self, rule, construct, statement, ok, node=None, reason='', definite=False, **kw):
+        """ok: True -> met, None -> undecided.  ok False -> violated ONLY with ``definite=True``,
+        i.e. when the caller's test is semantic (a table entry missing, an evaluated index, a normal-form
+        identity, an order tag, ...).  A failed comparison of normalised source text is not a witness of
+        a defect -- the construct may just be written differently -- so it yields ``undecided``."""
+        if not isinstance(statement, str):
+            statement = src(statement)
+        if ok is None:
+            v = UNDECIDED
+        elif bool(ok):
+            v = MET
+        else:
+            if not definite:
+                from .definite import is_definite
+                definite = is_definite(rule, statement)
+            v = VIOLATED if definite else UNDECIDED
+            if not definite and reason:
+                reason = 'not in a recognised form: ' + reason
         return self.ob(rule, construct, statement, v, node, reason, **kw)
+
+    def formula(self, rule, construct, expr, expected_src, node=None, reason='', label=None):
+        """Semantic comparison of an arithmetic expression with an expected formula (both brought to a
+        rational normal form over their leaf expressions).  Equal -> met; different while built from the
+        same leaves -> violated (a definite witness: same operands, different function); different leaves
+        or non-arithmetic -> undecided."""
+        from . import poly
+        import ast as _ast
+        st = label or src(expr)
+        try:
+            got = poly.from_ast(expr) if isinstance(expr, _ast.AST) else poly.from_ast(_ast.parse(expr, mode='eval').body)
+            want = poly.from_ast(_ast.parse(expected_src, mode='eval').body)
+        except (poly.NotPolynomial, SyntaxError, ZeroDivisionError):
+            return self.ob(rule, construct, st, UNDECIDED, node, 'not an arithmetic expression: ' + reason)
+        if got == want:
+            return self.ob(rule, construct, st, MET, node, reason)
+        gs = got.n.symbols() | got.d.symbols()
+        ws = want.n.symbols() | want.d.symbols()
+        if gs <= ws:
+            return self.ob(rule, construct, st, VIOLATED, node, reason + ' -- expected ' + expected_src)
+        return self.ob(rule, construct, st, UNDECIDED, node, 'built from other operands than ' + expected_src + ': ' + reason)
 
     def note(self, text):
         self.notes.append(text)
